@@ -3,6 +3,7 @@ from vmon.probe import shard_rng, observe
 from vmon.refs import b58 as RB, der as RD, ec as REC, sec as RS
 
 PROPERTY = "C10"
+PRELOAD_NETWORK_ORDERS = [["btc", "xtn", "ltc", "bch", "grs", "doge", "dash", "btg"], ["btg", "grs", "bch", "doge", "ltc", "xtn", "btc"]]
 LEVEL = "exploration"
 TECHNIQUE = ("differential runtime monitor at the key / codec API boundary vs independent SEC, DER, Base58Check and "
              "curve-arithmetic references; acceptance-subset-of-canonical oracle over enumerated and random blobs")
